@@ -22,7 +22,7 @@ git -C /repo worktree remove --force "$S"
 echo "suite_ok_pkgs=$suite demo_with_change_exit=$with demo_without_change_exit=$without"
 # run my check
 git -C /repo apply "$D/patch.diff"
-(cd /verif && ./check "$PROP" > "$D/check_$PROP.txt" 2>&1); rc=$?
+(cd /verif && VERIF_OUT="$D/out" ./check "$PROP" > "$D/check_$PROP.txt" 2>&1); rc=$?; rm -rf "$D/out/evidence"
 git -C /repo checkout -- .
 echo "check $PROP exit=$rc: $(grep -c '^VIOLATION' "$D/check_$PROP.txt") VIOLATION lines"
 grep "^VIOLATION\|ENGINE-ERROR\|UNDECIDED \|FAILED" "$D/check_$PROP.txt" | head -8
